@@ -156,14 +156,23 @@ def roles(fn):
     params = _params(fn)
     bs = [b for b in bindings(fn) if b[0] not in params]
     names = {b[0] for b in bs}
-    anon = _Anon(names)
     sigs = {}
     first = {}
     for name, kind, expr, extra, ln in bs:
         if expr is None:
             txt = ''
         else:
-            txt = ast.unparse(anon.visit(copy.deepcopy(expr)))
+            # anonymise the other locals in place, print, restore (a deep
+            # copy would follow parent links through the whole module)
+            touched = [(n, n.id) for n in ast.walk(expr)
+                       if isinstance(n, ast.Name) and n.id in names]
+            for n, _ in touched:
+                n.id = '_L'
+            try:
+                txt = ast.unparse(expr)
+            finally:
+                for n, old in touched:
+                    n.id = old
         sigs.setdefault(name, set()).add('%s:%s:%s' % (kind, txt, extra))
         first[name] = min(first.get(name, ln), ln)
     return {n: ('|'.join(sorted(s)), first[n]) for n, s in sigs.items()}
